@@ -16,7 +16,9 @@ import vlib
 from vlib import enc_str, enc_list, dec_list, dec_str
 
 THEOREMS = ["C09_roundtrip", "C09_safe_simple", "C09_roundtrip_simple", "C09_rebind", "C09_Q_refuted", "C09_Q2_refuted", "C09_H_refuted", "C09_NL_refuted",
-            "C09_D_refuted", "C09_P_refuted", "C09_B_refuted", "C09_E_refuted", "C09_W_refuted", "C09_nonvacuous"]
+            "C09_D_refuted", "C09_P_refuted", "C09_B_refuted", "C09_E_refuted", "C09_W_refuted", "C09_nonvacuous",
+            # index-faithful model (EvalSerIx.v): eval::parse over the index-faithful parser / binder, instructions[0]
+            "C09_ix_total", "C09_ix_refines", "C09_ix_parse_total", "C09_ix_parse_refines", "C09_ix_parse_unguarded_refuted"]
 POSITIONS = ["direct", "if", "elseif", "while", "not", "alias", "alias-with-first-argument-stored"]
 CMD = "capture"
 ALPHA = ["a", " ", "\"", "\\", "#", "=", "$", "%", "{", "}", "\t", "\n", "\r", "é"]
@@ -148,6 +150,8 @@ def run(ck):
     ck.gen_from_source()
     ck.coq_build(["props/C09.vo", "extract/C09_extract.vo"])
     ck.print_assumptions(["DSP.C09"], ["DSP.C09." + t for t in THEOREMS])
+    ck.source_tie("parser")
+    ck.source_tie("expand")
     ck.hygiene()
     ck.ocaml_build()
     ck.harness_build(["c09"])
@@ -216,6 +220,14 @@ def run(ck):
         viol = []
         printed = set()
         harness_bad = []
+        # the model call is the index-faithful model's (EvalSerIx.eval_call_ix); P = its Panic outcome, IXDIFF = it differs
+        # from the suffix model: both contradict C09_ix_total / C09_ix_refines (which hold for every argument vector)
+        ck.obligations.append("index-faithful eval::parse model: no Panic and equal to the suffix model on every case (C09_ix_total, C09_ix_refines)")
+        ix_bad = [(cases[k][1], r_[2]) for k, r_ in enumerate(res) if r_[2] in ("P", "IXDIFF")]
+        if ix_bad:
+            ck.broken.append("index-faithful eval::parse model answers %s on %r" % (ix_bad[0][1], ix_bad[0][0]))
+        else:
+            ck.discharged.append("index-faithful eval::parse model: no Panic, equal to the suffix model")
         for k, ((extra, args, tag), (dom, cls, call, r, simple)) in enumerate(zip(cases, res)):
             dist["tags"][tag] = dist["tags"].get(tag, 0) + 1
             exp = expected(args)
